@@ -67,9 +67,26 @@ def classify_not_wf(res, strings, comment_strings=()):
     return None
 
 
+_XMLNS = 'http://www.w3.org/XML/1998/namespace'
+
+
+def _qname(e, clark):
+    """lxml reports namespaced names in Clark notation {uri}local: map back to the prefixed source name"""
+    if not clark.startswith('{'):
+        return clark
+    uri, local = clark[1:].split('}', 1)
+    if uri == _XMLNS:
+        return 'xml:' + local
+    for pfx, u in e.nsmap.items():
+        if u == uri:
+            return local if pfx is None else f'{pfx}:{local}'
+    return clark
+
+
 def lxml_events(root):
     """Canonical event list of an lxml tree: ('start', tag, sorted attrs) / ('text', s) / ('end', tag) / ('comment', s)
-    / ('pi', target, text); adjacent text merged, empty text dropped."""
+    / ('pi', target, text); adjacent text merged, empty text dropped.  Names are source names (prefix:local) and
+    namespace declarations are reported as xmlns / xmlns:p attributes, as a non-namespace-aware parser reports them."""
     from lxml import etree
     ev = []
 
@@ -80,19 +97,24 @@ def lxml_events(root):
             else:
                 ev.append(('text', s))
 
-    def walk(e):
+    def walk(e, parent_ns):
         if e.tag is etree.Comment:
             ev.append(('comment', e.text or ''))
         elif e.tag is etree.ProcessingInstruction:
             ev.append(('pi', e.target, e.text or ''))
         else:
-            ev.append(('start', e.tag, tuple(sorted((k, v) for k, v in e.attrib.items()))))
+            attrs = [(_qname(e, k), v) for k, v in e.attrib.items()]
+            for pfx, uri in e.nsmap.items():
+                if parent_ns.get(pfx) != uri:
+                    attrs.append(('xmlns' if pfx is None else f'xmlns:{pfx}', uri))
+            tag = _qname(e, e.tag)
+            ev.append(('start', tag, tuple(sorted(attrs))))
             text(e.text)
             for c in e:
-                walk(c)
+                walk(c, e.nsmap)
                 text(c.tail)
-            ev.append(('end', e.tag))
-    walk(root)
+            ev.append(('end', tag))
+    walk(root, {})
     return ev
 
 
